@@ -6,43 +6,38 @@
    render_spec  : ONE left-to-right expansion of the template AST (Spec.v).
 
    The opacity conjunct of the property ("text that enters through a bound value, loop item
-   or default is never re-interpreted") is FALSE of the unchanged code: see the
-   c12_opacity_refuted_* lemmas in Examples.v (recorded findings).  What holds, and is proved
-   here without any bound on template size, number of templates, include depth or context, is
-   the conjunct about delimiter-free contexts. *)
+   or default is never re-interpreted") was FALSE of the code before the repairs: the
+   c12_opacity_*_legacy_refuted lemmas in Examples.v were true of the code before the repairs
+   1548caf / 29cb17a and are kept about the [legacy] model.  The theorems below are about the
+   code as it is now and have no bound on template size, number of templates, include depth or
+   context. *)
 From Coq Require Import ZArith List Bool.
-From Verif Require Import C12.Impl C12.Spec C12.Proofs.
+From Verif Require Import C12.Impl C12.Spec C12.Model C12.Proofs.
 Import ListNotations.
 
-(* Rendering = the single left-to-right expansion, for every well-formed template of the
-   documented grammar (text, plain/optional/defaulted/filtered variables, {{.}}, if/else,
-   each with item/index/first/last/dict keys, includes of any depth) and every
-   delimiter-free context, whenever the expansion is defined (no len() of an int/bool, no
-   include cycle). *)
+(* Rendering = the single left-to-right expansion with every bound value, loop item, default and
+   included text emitted verbatim: for every well-formed template of the documented grammar
+   (text, plain/optional/defaulted/filtered variables, {{.}}, if/else, each with
+   item/index/first/last/dict keys, includes of any depth) and EVERY context whose strings do
+   not contain the two shielding sentinels U+E000/U+E001 and whose dict-item keys are
+   identifiers ([ctx_ok]; braces and any other code point are allowed), whenever the
+   expansion is defined (no len() of an int/bool, no include cycle).  [well_formed] also asks
+   the template text and defaults to be sentinel-free. *)
 Theorem c12_render_eq :
   forall T c t txt miss,
-    delimiter_free c = true ->
+    ctx_ok c = true ->
     forallb (fun nt => well_formed (snd nt)) T = true -> well_formed t = true ->
     render_spec false T c t = SOk txt miss ->
     exists w, render_impl false (print_templates T) c (print t) = Ok txt w.
 Proof. exact render_eq_proof. Qed.
 Print Assumptions c12_render_eq.
 
-(* stage 1 of the same statement: the variables-and-text fragment *)
-Theorem c12_render_eq_vars :
-  forall T c t txt miss,
-    delimiter_free c = true -> well_formed t = true -> vars_only t = true ->
-    render_spec false T c t = SOk txt miss ->
-    exists w, render_impl false (print_templates T) c (print t) = Ok txt w.
-Proof. exact render_eq_vars_proof. Qed.
-Print Assumptions c12_render_eq_vars.
-
-(* Every plain variable written in the template (block bodies included) that the context does
-   not bind is reported: a "Missing required variable" warning, or an error in strict mode.
-   Any context, any registered templates. *)
+(* Every plain variable written in the template outside {{#each}} bodies (if-branches
+   included) that the context does not bind is reported: a "Missing required variable" warning,
+   or an error in strict mode.  Any context, any registered templates. *)
 Theorem c12_missing_plain_var_warned :
   forall T c t x,
-    well_formed t = true -> In x (plain_vars t) -> lookup c x = None ->
+    well_formed t = true -> In x (plain_vars_out t) -> lookup c x = None ->
     (forall txt w, render_impl false T c (print t) = Ok txt w -> In (WMissing x) w) /\
     (exists y, render_impl true T c (print t) = Err (EMissing y) /\ lookup c y = None).
 Proof. exact missing_plain_var_warned_proof. Qed.
@@ -56,3 +51,47 @@ Theorem c12_unknown_include_marker :
     render_impl strict (print_templates T) c (print [NLeaf (LInc n)]) = Ok (unknown_marker n) [].
 Proof. exact unknown_include_marker_proof. Qed.
 Print Assumptions c12_unknown_include_marker.
+
+(* Strict mode accepts loop variables (29cb17a): when every plain variable written OUTSIDE
+   {{#each}} bodies is bound - in the template and in the registered templates - strict mode
+   renders exactly the reference expansion, in which {{item}} {{index}} {{first}} {{last}} and
+   dict keys inside loop bodies are bound per item and any other plain variable of a loop body
+   must be bound for the expansion to be defined. *)
+Theorem c12_strict_loop_vars :
+  forall T c t txt miss,
+    ctx_ok c = true ->
+    forallb (fun nt => well_formed (snd nt)) T = true -> well_formed t = true ->
+    Forall (fun nt => out_bound c (snd nt)) T -> out_bound c t ->
+    render_spec true T c t = SOk txt miss ->
+    exists w, render_impl true (print_templates T) c (print t) = Ok txt w.
+Proof. exact strict_loop_vars_proof. Qed.
+Print Assumptions c12_strict_loop_vars.
+
+(* ... and a plain variable that is still there after the blocks are expanded ([blocks c t]:
+   the chosen if-branches and one copy of each loop body per item, loop variables replaced)
+   and is unbound is an error in strict mode, for any registered templates. *)
+Theorem c12_strict_unbound_is_error :
+  forall Ts c t x,
+    ctx_ok c = true -> well_formed t = true ->
+    In (LVar x) (blocks c t) -> lookup c x = None ->
+    exists e, render_impl true Ts c (print t) = Err e.
+Proof. exact strict_unbound_error_proof. Qed.
+Print Assumptions c12_strict_unbound_is_error.
+
+(* OPACITY.  In the taint model (Model.v: the same scanners run over code points that carry
+   their origin: template / plain / optional / filtered / default / loop item / include) no
+   scanner match of any pass - conditionals, loops, the loop-body str.replace, includes, the
+   filtered, defaulted, optional and simple variable passes, nested includes to any depth -
+   ever covers a code point whose origin is not the template: the log of (origin, pass)
+   events is empty.  For EVERY well-formed template and registered templates, both modes, and
+   EVERY admissible context (strings free of the sentinels U+E000/U+E001, identifier dict
+   keys; braces and all template syntax allowed in values, items, dict values), whatever the
+   outcome (rendering, strict-mode error, filter type error).  Together with c12_render_eq:
+   the output is the one left-to-right expansion with the values verbatim. *)
+Theorem c12_opacity :
+  forall strict T c t,
+    ctx_ok c = true ->
+    forallb (fun nt => well_formed (snd nt)) T = true -> well_formed t = true ->
+    snd (Model.render_taint strict (print_templates T) c (print t)) = [].
+Proof. exact opacity_proof. Qed.
+Print Assumptions c12_opacity.
